@@ -14,7 +14,7 @@ pub fn prop() -> Prop {
         rule: "observer bodies H (15: the bound name next to ., ^., ^^., ^^^., another variable, another macro, a selected name) x enclosing contexts X (12: top level, map, filter, fold, sort_by, map_values, pipe stage, pipe-then-map, flat_map, pipes with a stage that returns its input unchanged) x binding forms F (27: a macro whose body binds its own name again; a macro whose body is a pipe and is used as a stage of another pipe; set, define, a macro whose body names another macro or variable that is bound later, earlier or re-bound at the place of use, --set variable, --set macro, nested both ways, shadowing an inner/outer/--set binding, unused names, a macro whose body reads a variable bound outside/inside, a macro reading ^) x placement (binding outside X / inside the functional argument) x bound values (4) x position 1..4 among --select options x with/without --split-by x 2 inputs; plus the same expression repeated in four --select positions; plus 3..130 variables and macros in scope at once (nested set/define, or --set given that many times); 10..1100 expansions of one macro in one record, most yielding nothing; shadowing where the inner and the outer value are numerically close (2^64-1 / 2^64, -2^63 / -2^63-1, 2^53+1 / 2^53, 0 / -0.0); non-trivial = the body reads something the binding had to carry over (^, another binding, a selected name) or sits after --split-by / other selections; distinct by construction",
         explanation: "each case is one run with two selections: the bound form and the form obtained by substituting the bound value / macro body by hand; both must have the same value (differential, no model needed) and both are also compared with the reference evaluator",
         assumptions: COMMON_ASSUMPTIONS.to_vec(),
-        guards: vec!["binding-names-beyond-ascii-letters", "many-macro-expansions-in-one-record", "shadowing-with-numerically-close-values", "many-bindings-in-scope", "parent-read-under-a-binding", "other-variable-survives", "other-macro-survives", "selected-name-survives", "after-split", "shadowing", "macro-body-reads-outer-variable", "pipe-stage-parent", "later-select-sees-same-parents"],
+        guards: vec!["preset-variable-is-evaluated-before-any-record", "binding-names-beyond-ascii-letters", "many-macro-expansions-in-one-record", "shadowing-with-numerically-close-values", "many-bindings-in-scope", "parent-read-under-a-binding", "other-variable-survives", "other-macro-survives", "selected-name-survives", "after-split", "shadowing", "macro-body-reads-outer-variable", "pipe-stage-parent", "later-select-sees-same-parents"],
         budget_s: (100, 1800),
         single_worker: false,
         run,
@@ -493,4 +493,29 @@ fn run(ctx: &mut Ctx) {
         }
     }
     ctx.level_done("binding-names(14-names-x-8-forms)");
+    // a --set variable is a VALUE: its expression is evaluated once, before any record, on the empty input - also
+    // when the expression mentions `.` and has a fall-back; a --set macro is the expression itself, evaluated per record
+    if ctx.mine() {
+        let exprs = ["(default .k \"dflt\")", "(null? .)", "(stringify .)", "(default (.len) 0)", "(? (object? .) 1 2)"];
+        let at_start = ["\"dflt\"", "true", "\"null\"", "0", "2"];
+        for (e, v0) in exprs.iter().zip(at_start) {
+            let input = format!("{}\n{}\n[1, 2]\n", INPUTS[0], INPUTS[1]);
+            let args = vec![format!("--set=x={e}"), format!("--set=@m={e}"), "--select=:x=var".to_string(), "--select=(map (range 1) :x)=inside".to_string(), "--select=@m=mac".to_string(), format!("--select={e}=inline")];
+            let case = Case::owned(args, input.into_bytes());
+            let obs = ctx.run(&case);
+            ctx.case_done();
+            ctx.trace_validated();
+            ctx.nontrivial();
+            ctx.guard("preset-variable-is-evaluated-before-any-record");
+            let rows = json::parse_rows(&obs.stdout, b"\n").unwrap_or_default();
+            let want = json::parse_str(v0);
+            let ok = obs.res.is_ok()
+                && rows.len() == 3
+                && rows.iter().all(|r| r.get("var") == Some(&want) && r.get("inside") == Some(&V::Arr(vec![want.clone()])) && r.get("mac") == r.get("inline"));
+            if !ok {
+                ctx.violation("preset-variable-depends-on-a-record", &format!("--set x={e}"), &[case.clone()], format!("var = {v0} in every row; the macro equals the inline expression"), obs.brief());
+            }
+        }
+    }
+    ctx.level_done("preset-variables-with-expressions-that-mention-the-input");
 }
